@@ -610,7 +610,11 @@ func (g *Gen) expand(pat string, v View) {
 				st = append(st, lit(Action{Op: "link", Node: leader, Node2: o, Mode: "drop"}))
 			}
 		}
-		st = append(st, lit(Action{Op: "link", Node: b, Node2: leader, Mode: "held"}))
+		// its replies are parked (they arrive in the second leadership) - or delivered, so that what the
+		// leader remembers about the witness dates from the first leadership
+		if rapid.IntRange(0, 2).Draw(t, "parkReplies") != 0 {
+			st = append(st, lit(Action{Op: "link", Node: b, Node2: leader, Mode: "held"}))
+		}
 		k := rapid.IntRange(1, 6).Draw(t, "suffix")
 		for i := 0; i < k; i++ {
 			st = append(st, submitAt(leader, "write"))
@@ -928,6 +932,138 @@ func (g *Gen) expand(pat string, v View) {
 		st = append(st, advance(g.dur("d2", et, 2*et)), lit(Action{Op: "restart", Node: spare}), advance(g.dur("d3", et, 3*et)))
 		st = append(st, submitAt("leader", "write"), advance(g.dur("d4", hb, et)))
 		g.push("P26", st...)
+	case "P27": // Stop() and Start()/Restart() on the *same* instance of a node whose snapshot is behind what it has applied
+		if leader == "" {
+			g.push("P27", advance(et))
+			return
+		}
+		x := g.pick("restartee", g.running(v))
+		if x == "" {
+			return
+		}
+		var st []step
+		nw := rapid.IntRange(1, 4).Draw(t, "nw")
+		for i := 0; i < nw; i++ {
+			st = append(st, submitAt("leader", "write"))
+		}
+		st = append(st, advance(g.dur("d0", hb, 2*hb)), lit(Action{Op: "armsnap", Node: x}), submitAt("leader", "write"), advance(g.dur("d1", hb, et)))
+		nw2 := rapid.IntRange(0, 4).Draw(t, "nw2")
+		for i := 0; i < nw2; i++ {
+			st = append(st, submitAt("leader", "write"))
+		}
+		st = append(st, advance(g.dur("d2", hb, 2*hb)))
+		st = append(st, lit(Action{Op: "api", Kind: "stop", Node: x}), advance(g.dur("d3", 1000, hb, et)))
+		st = append(st, lit(Action{Op: "api", Kind: rapid.SampledFrom([]string{"start", "restart"}).Draw(t, "how"), Node: x}), advance(g.dur("d4", et, 3*et)))
+		st = append(st, submitAt("leader", "write"), advance(g.dur("d5", hb, et)))
+		g.push("P27", st...)
+	case "P28": // an aborted change: the cut-off leader appends a removal nobody else sees and crashes; the others commit a different
+		// change; the old leader restarts, is repaired, and is then left alone with the node the genuine change removed
+		if leader == "" {
+			g.push("P28", advance(et))
+			return
+		}
+		var voters []string
+		if cf := v.Conf[leader]; cf != nil {
+			for id, voter := range cf.Members {
+				if voter && id != leader {
+					voters = append(voters, id)
+				}
+			}
+		}
+		sort.Strings(voters)
+		if len(voters) < 3 {
+			g.push("P28", g.membershipSteps(v)...)
+			return
+		}
+		a := g.pick("aborted", voters)
+		var rest []string
+		for _, id := range voters {
+			if id != a {
+				rest = append(rest, id)
+			}
+		}
+		w := g.pick("removed", rest)
+		var st []step
+		st = append(st, lit(Action{Op: "isolate", Node: leader, Mode: "drop"}))
+		nw := rapid.IntRange(0, 3).Draw(t, "nw")
+		for i := 0; i < nw; i++ {
+			st = append(st, submitAt(leader, "write"))
+		}
+		st = append(st, lit(Action{Op: "remove", Node: leader, Node2: a, Client: g.nextClient(), Timeout: 100}), advance(g.dur("d0", 1000, hb)))
+		if rapid.Bool().Draw(t, "crashOld") {
+			st = append(st, lit(Action{Op: "crash", Node: leader}))
+		} else {
+			st = append(st, lit(Action{Op: "stop", Node: leader}))
+		}
+		st = append(st, advance(g.dur("d1", 2*et, 3*et)))
+		st = append(st, func(g *Gen, v View) (Action, bool) {
+			id := newestLeaderExcept(v, leader)
+			if id == "" {
+				return Action{Op: "advance", DurUs: et}, true
+			}
+			target := w
+			if id == w {
+				target = a
+			}
+			return Action{Op: "remove", Node: id, Node2: target, Client: g.nextClient(), Timeout: 500}, true
+		}, advance(g.dur("d2", 2*hb, et)))
+		st = append(st, lit(Action{Op: "restart", Node: leader}), lit(Action{Op: "reconnect", Node: leader, Mode: "drop"}), advance(g.dur("d3", et, 2*et)))
+		side := []string{leader, w}
+		sort.Strings(side)
+		st = append(st, lit(Action{Op: "partition", Set: side, Mode: "drop"}), advance(g.dur("d4", 3*et, 5*et)))
+		st = append(st, submitAt(leader, "write"), func(g *Gen, v View) (Action, bool) {
+			id := newestLeaderExcept(v, leader)
+			if id == "" {
+				return Action{Op: "advance", DurUs: et}, true
+			}
+			return Action{Op: "submit", Node: id, Kind: "write", Client: g.nextClient(), Timeout: 2000}, true
+		}, advance(g.dur("d5", hb, et)))
+		st = append(st, lit(Action{Op: "heal", Mode: "deliver"}), advance(g.dur("d6", et, 3*et)))
+		g.push("P28", st...)
+	case "P30": // a voter whose snapshot covers its whole log is asked by a candidate that missed committed entries, while nobody
+		// else may campaign and the leader is gone
+		if leader == "" || len(g.C.others(leader)) < 2 {
+			g.push("P30", advance(et))
+			return
+		}
+		others := g.C.others(leader)
+		stale := g.pick("stale", others)
+		var rest []string
+		for _, o := range others {
+			if o != stale {
+				rest = append(rest, o)
+			}
+		}
+		var st []step
+		st = append(st, lit(Action{Op: "isolate", Node: stale, Mode: "drop"}))
+		if rapid.Bool().Draw(t, "longOld") {
+			// ... or one with a long log of an old term: it believes it leads and keeps appending
+			st = append(st, submitAt(stale, "write"), submitAt(stale, "write"))
+		}
+		nw := rapid.IntRange(1, 5).Draw(t, "nw")
+		for i := 0; i < nw; i++ {
+			st = append(st, submitAt(leader, "write"))
+		}
+		st = append(st, advance(g.dur("d0", hb, 2*hb)))
+		for _, o := range rest {
+			st = append(st, lit(Action{Op: "armsnap", Node: o}))
+		}
+		if rapid.Bool().Draw(t, "leaderToo") {
+			st = append(st, lit(Action{Op: "armsnap", Node: leader}))
+		}
+		st = append(st, submitAt(leader, "write"), advance(g.dur("d1", 2*hb, et)))
+		// the leader disappears; only the stale node may ask for votes
+		st = append(st, lit(Action{Op: "heal", Mode: "drop"}), lit(Action{Op: "isolate", Node: leader, Mode: "drop"}))
+		for _, o := range rest {
+			for _, q := range g.C.Order {
+				if q != o && q != leader {
+					st = append(st, lit(Action{Op: "link", Node: o, Node2: q, Mode: "noreq"}))
+				}
+			}
+		}
+		st = append(st, advance(g.dur("d2", 3*et, 5*et)), submitAt("anyleader", "write"), advance(g.dur("d3", hb, et)))
+		st = append(st, lit(Action{Op: "heal", Mode: "deliver"}), advance(g.dur("d4", et, 3*et)))
+		g.push("P30", st...)
 	case "P10": // membership change under fault
 		g.push("P10", g.membershipSteps(v)...)
 	case "P11": // everything down, a strict majority (or everybody) comes back
